@@ -104,6 +104,22 @@ def serve (servers : Registry) : List (Msg × HandleResult) → List Reaction
     | .propagates => [.propagates]
     | r => r :: serve servers rest
 
+/-- the same loop, one request at a time (what the driver replays the real request sequence through):
+    `alive = false` once an exception has left the loop; then nothing more is received.
+    `serve_eq_serveInc` (NxProofs) proves it equal to `serve`. -/
+def serveStep (servers : Registry) (alive : Bool) (x : Msg × HandleResult) : Bool × Option Reaction :=
+  if alive then
+    match react servers x.1 x.2 with
+    | .propagates => (false, some .propagates)
+    | r => (true, some r)
+  else (false, none)
+
+def serveInc (servers : Registry) (alive : Bool) : List (Msg × HandleResult) → List Reaction
+  | [] => []
+  | x :: rest =>
+    let (alive', r) := serveStep servers alive x
+    (match r with | some r => [r] | none => []) ++ serveInc servers alive' rest
+
 /-! ## The generated server classes -/
 
 /-- shape of the response part of a generated `handle_<method>` -/
